@@ -94,11 +94,16 @@ SPEC = dict(
          "position i and s >= thr), on the implementation's own scores; take(k) = min(k,#qualifying) distinct "
          "qualifying hits; any panic on a configured input. DIFF: bit-exact comparison with the extracted binary32 "
          "scanner model incl. yield order and panic sites. Non-trivial: distinct (M, L, B, wrap, thr, matrix) with "
-         "L >= M and wrap >= M-1. Theorems (7): C02_scan_sound, C02_take_sound (unconditional), C02_scan_complete, "
+         "L >= M and wrap >= M-1. Theorems (13): C02_scan_sound, C02_take_sound (unconditional), C02_scan_complete, "
          "C02_next_total, C02_take_prefix (all B >= 1, all R/Lm incl. L<M, L=0, R multiple of B, any threshold; under "
-         "the layout hypotheses and C08 conservativeness at the threshold), C02_scan_blocks_partition, C02_check_sound; "
-         "plus C02_concrete_scan / C02_concrete_sound: the same for the extracted concrete model with the layout "
-         "hypotheses discharged (every arm).",
+         "the layout hypotheses and C08 conservativeness at the threshold), C02_scan_blocks_partition, C02_scan_reads_blocks_only (next() scores no row range other than "
+         "the blocks), C02_check_sound, "
+         "C02_check_complete (the checker raises no false alarm); for the extracted concrete model, every arm, with the "
+         "layout hypotheses discharged: C02_concrete_scan, C02_concrete_scan_explicit (scores written out as the "
+         "left-to-right f32 sum / saturating byte sum of the window cells), C02_concrete_scan_c08 (conservativeness "
+         "reduced to C08's main clause per position + factor sign bit clear, via coq/disc's C08_scale_monotone_f32), "
+         "C02_concrete_sound. The corpus (run first) holds boundary cases, the inputs on which seven deliberate "
+         "mutations of scan.rs were caught, and the witnesses of the known findings F14b-c02 / F14-c02.",
     trusted_base=COMMON_TRUSTED,
     assumptions=[
         "conservative (property C08) at the scanner's threshold: a valid position whose f32 score is >= thr has an "
@@ -111,6 +116,9 @@ SPEC = dict(
         "for the concrete model in ConcreteProofs.v for every well-formed input (C >= 1, M >= 1, wrap >= M-1, matrix "
         "rows of >= K cells, symbols < K) and every arm",
         "qualifying scores are not NaN: follows from the IEEE comparison (F32Order.v: x >= t implies x is not NaN)",
+        "C02_concrete_scan_c08 imports coq/disc (DiscF32Mono.scale_with_f32_mono: binary32 scale is monotone when the "
+        "sign bit of the factor is clear); its two hypotheses are C08's main clause at every position and the sign "
+        "condition, both false only on the inputs of the known findings F14 / F14b",
         "input side conditions of the property: block size >= 1, motif not empty, sequence configured for the motif; "
         "no NaN among the non-wildcard matrix cells (to_discrete unwraps partial_cmp: Scanner::new panics, compared "
         "with the model only)",
